@@ -151,7 +151,7 @@ def check(ctx):
             iv = mm.interval(err) if pe is None and family == "angle" \
                 else None
             top = 180.0 if degrees else 3.141592653589793
-            if iv is not None and iv[1] > top * (1 + 1e-9):
+            if iv is not None and top * (1 + 1e-9) < iv[1] < float("inf"):
                 ctx.ob("C02.6", res.func, False,
                        f"RPE[{member}]: the value expression has range "
                        f"[{iv[0]:.6g}, {iv[1]:.6g}] — a geodesic angle lies "
